@@ -120,6 +120,10 @@ MISSED = {
  "C17-m13": "a snapshot was never taken right after another snapshot and an in-place re-seed; added, with restoration into a third instance",
  "C19-m14": "illegal limit arguments met a three-faced histogram only; added one-faced, weighted one-faced, zero-count one-faced, empty and one-die-pool receivers for every illegal limit and for max_depth together with precision_limit",
  "C16-m3": "histograms were built from mappings only; added construction from reversed pairs and from bare outcomes mixed with pairs (stored order not ascending)",
+ "C12-m15": "dyce.r.walk (an anchor of the property: the traversal clients inspect a record with) was never called; every record is now walked from the roll, from its first outcome and from the roller, and the visited rolls / rollers / outcomes and the parents handed to the visitor are compared with an independent traversal of the same object graph",
+ "C08-m15": "the recorded finding K1 suppressed EVERY disagreement on a single-faced histogram given to the deprecated spelling; it is now suppressed only when the answer is exactly the documented guard's (oracle and Coq model contain the guard), and single-faced histograms of weight 2, 3, 7 (also zero-padded, also through a pool) are generated for every limit",
+ "C16-m15": "variance(mu) / stdev(mu) were only called with the value mean() returned or a wrong mu; the precomputed mean is now passed in every spelling a client holds it in (int, Fraction, float when it is exactly integral) and must give variance()",
+ "C06-m15": "pool sources never held dice with the SAME faces but non-proportional weights; added such pools (both orders, with and without a selection) as sources of the mechanics",
 }
 
 
